@@ -23,6 +23,7 @@ Variable b_at : bnds -> nat -> bnd.
 Variable t_partial : tensor -> nat -> nat -> bnd -> tensor.
 Variable t_pysum : list tensor -> tensor.
 Variable b_default : tensor -> nat -> bnd.
+Variable t_hsum : list tensor -> R.
 
 Definition gen_tensor_rmul_TR (self : tensor) (other : R) : tensor :=
   (t_smul other self).
@@ -62,6 +63,10 @@ Definition gen_metrics_var (t : tensor) : R :=
   ((gen_metrics_normsq (gen_tensor_sub_TR t (t_mean t))) / (t_numel t)).
 Definition gen_metrics_std (t : tensor) : R :=
   (sqrt (gen_metrics_var t)).
+Definition gen_metrics_raw_moment (t : tensor) (k : nat) : R :=
+  ((t_hsum (repeat t k)) / (t_numel t)).
+Definition gen_metrics_normalized_moment (t : tensor) (k : nat) : R :=
+  ((gen_metrics_raw_moment (gen_tensor_sub_TR t (t_mean t)) k) / (Rpower (gen_metrics_var t) ((INR k) / (IZR (2))))).
 Definition gen_logic_is_tautology (t : tensor) : Prop :=
   ((gen_metrics_norm (gen_tensor_invert_T t)) <= (IZR (1) / IZR (1000000))).
 Definition gen_logic_is_contradiction (t : tensor) : Prop :=
